@@ -152,6 +152,7 @@ func (mr *modelReference) GetGeneration(i int) (*modelGeneration, error) {
 			gen.Model.InitialiseDimensions(mr.Dimensions)
 		}
 		mr.Generations[i] = &gen
+		verifEvent("load", "model", mr.ModelName, "gen", i)
 		genSlice := []int{0, int(mr.Batches[i]), 1}
 		if i > 0 {
 			genSlice[0] = int(mr.Batches[i-1])
@@ -202,6 +203,7 @@ func (mr *modelReference) GetGeneration(i int) (*modelGeneration, error) {
 func (mr *modelReference) PurgeGeneration(i int) {
 	verbosePrintf("Purging Generation %d for %s\n", i, mr.ModelName)
 	mr.Generations[i] = nil
+	verifEvent("purge", "model", mr.ModelName, "gen", i)
 }
 
 func (mr *modelReference) TotalRuns() int {
